@@ -5,6 +5,7 @@
 // rule oracle of the Coq model) and drives rules.InputFromPaths directly on respelled paths.
 //
 // usage: c01 <out.jsonl> <tier> <workdir> <gomaxprocs> <oracle:0|1> [fixed-workspaces.json [only]]
+// env:   VERIF_SEED; VERIF_SHARD=i/k (run every k-th workspace starting with the i-th)
 package main
 
 import (
@@ -537,7 +538,7 @@ func main() {
 	gen2 := hutil.NewRng(hutil.SeedFromEnv() ^ 0x5eed2)
 	nskew, nbig := 2, 120
 	if tier != "quick" {
-		nskew, nbig = 8, 300
+		nskew, nbig = 6, 240
 	}
 	id := 100
 	for shape := 0; shape < nskew; shape++ {
